@@ -19,7 +19,8 @@ RULE = ("frames: every opcode x mask x fin/rsv bits x payload length at the 125/
         "characters, NUL, empty, bytes and bytearray) x the 125/126/127 and 65535/65536 boundaries counted in BYTES and counted in "
         "CHARACTERS, all frames built first and written afterwards (and written twice); handler.send / close histories on one "
         "handler (non-ASCII text, send after close, close twice, non-str arguments) and send() issued from inside the endpoint "
-        "callback (echo), the written stream re-parsed by an independent RFC 6455 reader")
+        "callback (echo), the written stream re-parsed by an independent RFC 6455 reader; two or three connections alive in one "
+        "process with their TCP reads interleaved")
 ASSUMPTIONS = ["continuation frames (opcode 0) and message fragmentation are not supported by the code and outside the statement",
                "client frames are masked, carry a wire opcode (Text/Binary/Close/Ping/Pong) and Text payloads are valid UTF-8",
                "payload length < 2^63 (RFC 6455)"]
@@ -553,6 +554,42 @@ def constructors_and_send(run, viol):
                  dict(d, exception=err, client_sees=got if isinstance(got, str) else [[g[2], len(g[4])] for g in got[:8]],
                       expected=[[1, len(w)] for w in want[:8]]), "WebSocketTemporaryHandler.send inside callback")
         run.nt(("echo", repr(msgs), tuple(len(c) for c in chunks)))
+    # ---- several connections alive in one process, their reads interleaved: each endpoint gets exactly its own frames
+    for _ in range(150 if run.thorough() else 30):
+        k = r.choice([2, 2, 3])
+        conns = []
+        for _ in range(k):
+            fr = client_frames(r, r.randrange(1, 6), maxlen=r.choice([10, 140]))
+            stream = b"".join(rfc_encode(*f[:7], f[8]) for f in fr)
+            pts = sorted(r.randrange(0, len(stream) + 1) for _ in range(r.randrange(0, 6)))
+            chunks = [stream[a:b] for a, b in zip([0] + pts, pts + [len(stream)])]
+            req, ep = Req(), Endpt()
+            conns.append([fr, chunks, 0, WebSocketTemporaryHandler(("h", 1), {}, {}, WebSocketTemporaryRingBuffer(req), ep), ep, req, 0])
+        order = [i for i, c in enumerate(conns) for _ in c[1]]
+        r.shuffle(order)
+        for i in order:
+            c = conns[i]
+            try:
+                c[3](c[1][c[2]])
+            except Exception as ex:      # noqa
+                c[6] = lib.exc_code(ex)
+            c[2] += 1
+        for i, c in enumerate(conns):
+            run.evaluations += 1
+            want = [[f[4], f[8]] for f in c[0]]
+            nclose = 1 if any(f[4] == 8 for f in c[0]) else 0
+            try:
+                wr = rfc_parse_all(b"".join(c[5].out))
+            except ValueError:
+                wr = None
+            if c[4].log != want or c[6] or bytes(c[3]._buffer.buf) != b"" or wr is None or [g[2] for g in wr] != [8] * nclose:
+                viol("stream-not-delivered-exactly-once-in-order", ("interleaved", k),
+                     {"connections_alive": k, "connection": i, "frames": [[f[4], len(f[8])] for f in c[0]],
+                      "chunk_sizes": [len(x) for x in c[1]], "delivered": [[d[0], len(d[1])] for d in c[4].log], "exception": c[6],
+                      "left_in_buffer": len(c[3]._buffer.buf), "interleaving": order[:30],
+                      "server_wrote": None if wr is None else [[g[2], len(g[4])] for g in wr]},
+                     "WebSocketTemporaryHandler.__call__ (several connections in one process)")
+        run.nt(("interleaved", tuple(order)))
     run.exhaustive.append("constructors: Ping/Pong/Binary/Close/Text x every boundary 125/126/127/65535/65536 counted in bytes and "
                           "(Text) counted in characters of 1-, 2-, 3- and 4-byte code points")
 
